@@ -6,6 +6,7 @@ EXTENDS Shapes, TLC, Json, SequencesExt
 CONSTANTS Deep
 Prims == { <<"sphere", <<0, 0, 0>>, 2>>, <<"sphere", <<1, -1, 0>>, 1>>, <<"circle", <<0, 1>>, 2>>,
            <<"box", <<-1, 0, -2>>, <<2, 1, 1>>>>, <<"rect", <<-2, -1>>, <<1, 2>>>>,
+           <<"box", <<-2, -1, 0>>, <<2, 1, 3>>>>,          \* all six bounds in general position (no two equal along different axes)
            <<"plane", "X", 1>>, <<"plane", "Y", 0>>, <<"plane", "Z", -1>>, <<"plane", "XY", 1>>, <<"plane", "YZ", 0>>, <<"plane", "ZX", -1>> }
 Offsets == {<<1, 0, 0>>, <<0, -2, 1>>, <<-1, 1, 2>>}
 Scales == {<<2, 1, 1>>, <<1, -1, 2>>, <<-2, 2, 1>>}
